@@ -201,6 +201,7 @@ def decoder_width(prog, rep, rule, qual, maxlen, extra_args):
     at the second loop head must be data[1 + ceil(m/8):]."""
     f = prog.func(qual)
     bad = None
+    bads = []
     checked = 0
     for m in range(0, maxlen + 1):
         seen = []
@@ -225,17 +226,18 @@ def decoder_width(prog, rep, rule, qual, maxlen, extra_args):
         _f, outs = codec.run(prog, qual, [data] + list(extra_args), {}, loop_hook=hook, may_raise=False)
         want = 1 + int(math.ceil(m / 8.0))
         if not seen:
-            bad = bad or (m, 'no path returns to the loop head')
+            bads.append((m, 'no path returns to the loop head'))
             continue
         checked += 1
-        for k in seen:
-            if k != want:
-                bad = bad or (m, 'consumes %s octets, expected %d' % (k, want))
+        wrong = [k for k in seen if k != want]
+        if wrong:
+            bads.append((m, 'consumes %s octets, expected %d' % (wrong[0], want)))
     key = 'width-decoder:%s' % qual.rsplit('.', 2)[-2] + '.' + qual.rsplit('.', 1)[-1]
-    if bad:
-        rep.bad(rule, key + ':m=%d' % bad[0], file=f.file, line=f.node.lineno, func=qual,
-                found='prefix length %d: %s' % bad, expected='1 + ceil(m / 8) octets per prefix',
-                key=key + ':m=%d' % bad[0])
+    if bads:
+        for bad in bads[:6]:
+            rep.bad(rule, key + ':m=%d' % bad[0], file=f.file, line=f.node.lineno, func=qual,
+                    found='prefix length %d: %s (%d of %d lengths wrong)' % (bad[0], bad[1], len(bads), maxlen + 1),
+                    expected='1 + ceil(m / 8) octets per prefix', key=key + ':m=%d' % bad[0])
     else:
         rep.ok(rule, key, file=f.file, line=f.node.lineno, found='%d lengths evaluated' % checked)
 
